@@ -118,6 +118,25 @@ def buildSchemes (st : BuildState) (data : List SchemeDef) :
     Except PyErr (BuildState × List (String × Scheme)) :=
   buildSchemesAux data.length st data []
 
+/-- a definition without a base has its own `filtered` list applied to its own
+    columns (`combine_columns(base_columns=[], …)`): `none` when a filtered name
+    does not exist -/
+def SchemeDef.normalize (d : SchemeDef) : Option SchemeDef :=
+  match d.hasBase, d.filtered with
+  | none, some f =>
+    if f.any (fun n => !(d.columns.any (fun c => c.1 == n))) then none
+    else some { d with columns := d.columns.filter (fun c => !f.contains c.1), filtered := none }
+  | _, _ => some d
+
+/-- `build_schemes(data)` as it stands: two definitions with one annotation are
+    rejected up front, base-less definitions are normalised, then the build loop runs. -/
+def buildSchemesTop (st : BuildState) (data : List SchemeDef) :
+    Except PyErr (BuildState × List (String × Scheme)) :=
+  if !(data.map (·.annotation)).Nodup then .error .value
+  else match data.mapM SchemeDef.normalize with
+    | none => .error .value
+    | some ds => buildSchemes st ds
+
 /-- `load_all_scheme_data`: every column type name must be a known column type
     (a class of the column-types module deriving from `MafColumnRecord`) -/
 def knownColumnType (C : Ctx) (n : String) : Bool := isSubclass C n "MafColumnRecord"
